@@ -25,10 +25,11 @@ OUTS = [None, dict(dtype='uint16', nodata=65535), None, dict(dtype='int16', noda
 def encodings(dtype):
     if dtype == 'float32':
         return [('nan', None), (-9999.0, None), ('mask', 0.0), ('mask', 3.4e38), ('mask', -1e30), ('mask', float('nan')),
-                ('mask', 'random'), (3.0e38, None),
+                ('mask', 'random'), (3.0e38, None), ('masktag', 'random'), ('masktag', -9999.0),
                 # float64 files whose nodata value is no float32 number (incl. the float64 minimum, a common default)
                 ('f64:0.1', None), ('f64:-1e30', None), ('f64:-1.7976931348623157e308', None)]
-    return [(0, None), ('mask', 0), ('mask', 255), ('mask', 'random'), ('alpha', 0), ('alpha', 255), ('alpha', 'random')]
+    return [(0, None), ('mask', 0), ('mask', 255), ('mask', 'random'), ('alpha', 0), ('alpha', 255), ('alpha', 'random'),
+            ('masktag', 255), ('masktag', 'random')]
 
 
 def write_encoded(path, grid, arr, valid, dtype, enc, hidden, rng, south_up=False):
@@ -51,6 +52,11 @@ def write_encoded(path, grid, arr, valid, dtype, enc, hidden, rng, south_up=Fals
         for b in range(nb):
             a[b][~valid] = hv[~valid]
         rasters.write_tif(path, grid, a, dtype=dtype, nodata=None, mask=valid, south_up=south_up)
+    elif enc == 'masktag':
+        # an internal mask band *and* a nodata tag: the mask band decides, the tag value is just a number
+        for b in range(nb):
+            a[b][~valid] = hv[~valid]
+        rasters.write_tif(path, grid, a, dtype=dtype, nodata=-9999.0 if dtype == 'float32' else 255, mask=valid, south_up=south_up)
     elif enc == 'alpha':
         for b in range(nb):
             a[b][~valid] = hv[~valid]
@@ -118,7 +124,8 @@ def run(run: common.Run):
         encs = encodings(dtype)
         if dtype != 'float32' and nb not in (1, 3):
             encs = [e for e in encs if e[0] != 'alpha']
-        picks = [encs[0]] + rng.sample(encs[1:], 3 if run.quick() else min(5, len(encs) - 1))
+        # always: the base encoding and the second one (numeric nodata for float32, internal mask for uint8); the others sampled
+        picks = encs[:2] + rng.sample(encs[2:], 3 if run.quick() else min(5, len(encs) - 2))
         proc_ref = (case['proc'] == 'ref') or (case['proc'] == 'auto' and src.px <= ref.px)
         base = None
         for k, (enc_s, hid_s) in enumerate(picks):
@@ -287,7 +294,7 @@ def read_logic(run, tmp):
                     raw = ds.read(1).astype('float64')
                     maskbits = ds.dataset_mask().astype(bool)
                     ra = RasterArray.from_rio_dataset(ds, indexes=1)
-                    is_masked = enc in ('mask', 'alpha')
+                    is_masked = enc in ('mask', 'alpha', 'masktag')
                     nd = ds.nodata
             for r in range(3):
                 for c in range(4):
